@@ -298,6 +298,22 @@ func init() {
 		return nil
 	})
 
+	reg(rtPkg+".SetDialConn", func(fr *frame, args []value) value {
+		fr.i.ex.dialConn = args[0]
+		return nil
+	})
+	reg("(*net.Dialer).DialContext", func(fr *frame, args []value) value {
+		c := fr.i.ex.dialConn
+		if c == nil {
+			panic(engineError{"net.Dialer.DialContext without verifrt.SetDialConn"})
+		}
+		ifc := c.(iface)
+		if ifc.t == nil {
+			// harness models a failed dial
+			return tuple{iface{}, mkError(fr, "dial failed (harness)")}
+		}
+		return tuple{ifc, iface{}}
+	})
 	// ---- verifrt: virtual clock
 	reg(rtPkg+".Advance", func(fr *frame, args []value) value {
 		ex := fr.i.ex
